@@ -23,11 +23,12 @@ VARIABLES
   delivered,  \* delivered[k]: responses handed to the call for k
   taken,      \* taken[k]: responses consumed by the call for k
   ended,      \* calls (msg ids) that have ended
-  everReg     \* every k ever registered
+  everReg,    \* every k ever registered
+  errTaken    \* k for which the call has counted an error
 
-rvars == <<routers, stream, delivered, taken, ended, everReg>>
+rvars == <<routers, stream, delivered, taken, ended, everReg, errTaken>>
 
-RInit == routers = {} /\ stream = {} /\ delivered = <<>> /\ taken = <<>> /\ ended = {} /\ everReg = {}
+RInit == routers = {} /\ stream = {} /\ delivered = <<>> /\ taken = <<>> /\ ended = {} /\ everReg = {} /\ errTaken = {}
 
 Get(f, k, d) == IF k \in DOMAIN f THEN f[k] ELSE d
 CountOn(n) == Cardinality({k \in routers : k[1] = n})
@@ -37,7 +38,7 @@ Register(k, str) ==
   /\ k[2] \notin ended
   /\ routers' = routers \cup {k} /\ everReg' = everReg \cup {k}
   /\ stream' = IF str THEN stream \cup {k} ELSE stream
-  /\ UNCHANGED <<delivered, taken, ended>>
+  /\ UNCHANGED <<delivered, taken, ended, errTaken>>
 
 \* C05: a response is delivered only to a registered request of this node; a
 \* non-streaming request gets at most one (its router goes with the response)
@@ -45,25 +46,29 @@ Deliver(k, str) ==
   /\ k \in routers /\ (k \in stream) = str
   /\ delivered' = (k :> Get(delivered, k, 0) + 1) @@ delivered
   /\ routers' = IF str THEN routers ELSE routers \ {k}
-  /\ UNCHANGED <<stream, taken, ended, everReg>>
+  /\ UNCHANGED <<stream, taken, ended, everReg, errTaken>>
 
 Drop(k) == k \notin routers /\ UNCHANGED rvars
 
 Delete(k) ==
   /\ routers' = routers \ {k}
-  /\ UNCHANGED <<stream, delivered, taken, ended, everReg>>
+  /\ UNCHANGED <<stream, delivered, taken, ended, everReg, errTaken>>
 
 \* C05: what a call consumes under node n was delivered by node n's channel
 \* for this very call, and nothing is consumed after the call has ended
-Recv(k) ==
+\* (C07/C11: a failing node is counted once per call, also by streaming calls
+\* whose router may be handed several errors by the transport)
+Recv(k, isErr) ==
   /\ Get(taken, k, 0) < Get(delivered, k, 0)
   /\ k[2] \notin ended
+  /\ isErr => k \notin errTaken
   /\ taken' = (k :> Get(taken, k, 0) + 1) @@ taken
+  /\ errTaken' = IF isErr THEN errTaken \cup {k} ELSE errTaken
   /\ UNCHANGED <<routers, stream, delivered, ended, everReg>>
 
 End(m) ==
   /\ ended' = ended \cup {m}
-  /\ UNCHANGED <<routers, stream, delivered, taken, everReg>>
+  /\ UNCHANGED <<routers, stream, delivered, taken, everReg, errTaken>>
 
 \* invariants
 AtMostOneResponse == \A k \in DOMAIN delivered : k \notin stream => delivered[k] <= 1
